@@ -239,6 +239,35 @@ def search(ctx, deep):
                 if us == 'usable':
                     # a refused fit on a fresh object must not leave a usable model behind
                     bad('refused-but-usable', {'theta': rtheta}, 'refused fit leaves no usable model')
+    # history: re-fitting an already fitted object = fitting a fresh one (tau AND theta are recomputed)
+    valid = [X for kind, X in arrays if kind in ('gauss', 'ties', 'indep') and len(X) >= 20][:12]
+    for fam in B.FAMS:
+        for i in range(len(valid) - 1):
+            X1, X2 = valid[i], valid[i + 1]
+            obj = B.cls_of(fam)()
+            fresh = B.cls_of(fam)()
+            try:
+                obj.fit(X1)
+            except ValueError:
+                continue
+            r_obj = r_fresh = 'ok'
+            try:
+                obj.fit(X2)
+            except Exception as e:  # noqa
+                r_obj = 'err ' + vc.exc_kind(e)
+            try:
+                fresh.fit(X2)
+            except Exception as e:  # noqa
+                r_fresh = 'err ' + vc.exc_kind(e)
+            checked += 1
+            same = r_obj == r_fresh and (r_obj != 'ok' or (obj.tau == fresh.tau and obj.theta == fresh.theta))
+            if not same:
+                found += 1
+                ctx.fail_input(f'{fam}.fit', {'history': 'fit(X1); fit(X2)', 'X1': X1.tolist()[:6], 'X2': X2.tolist()[:6]},
+                               {'refit': [r_obj, obj.tau, obj.theta], 'fresh': [r_fresh, fresh.tau, fresh.theta]},
+                               'after fit(X) tau and theta are those of X, whatever was fitted before',
+                               f'{fam}.fit:refit-differs-from-fresh')
+                break
     ctx.support = {'oracle_checks': checked, 'failures': found, 'deep': deep}
 
 
